@@ -19,6 +19,7 @@ Judge ==
          IN /\ (C20_MetaCarriesAll(mm, PairsOf(r.d)) \/ Say("MetaDictDropsOrAdds", i))
             /\ (C20_MetaLossless(mm, RecOf(r.back)) \/ Say("MetaRoundTripLossy", i))
             /\ (C20_MetaIdempotent(PairsOf(r.d), PairsOf(r.d2)) \/ Say("MetaNotIdempotent", i))
+            /\ ((C20_ListingLossless(mm, RecOf(r.lst)) /\ r.lst_ok) \/ Say("ListingWithMetaLossy", i))
     ELSE LET r == Doc.hashes[i - Len(Doc.metas)]
          IN (C20_HashLossless(r.h, PairsOf(r.d), r.back) \/ Say("HashRoundTripLossy", i))
 =============================================================================
